@@ -200,7 +200,7 @@ func H_C09_arraykey() {
 // C09.traverse — next visits every present key exactly once, also when visited fields are cleared
 // or overwritten during the traversal.
 //
-//verif:harness prop=C09 tier=quick qparams=nkeys:3 tparams=nkeys:4 bounds="tables built from nkeys (3 quick / 4 thorough) stores with keys from {array integers 1..4 (symbolic), 1-byte symbolic strings, booleans}; during the traversal each visited field is cleared, overwritten or left alone (by choice per table)"
+//verif:harness prop=C09 tier=quick qparams=nkeys:3 tparams=nkeys:4 bounds="tables built from nkeys (3 quick / 4 thorough) stores with keys from {array integers 1..4 (symbolic), 1-byte symbolic strings, booleans}; during the traversal every visited field is cleared / overwritten / left alone, or only the j-th visited field is cleared (by choice per table)"
 func H_C09_traverse() {
 	L := newL(Options{}, BaseLibName)
 	tb := L.NewTable()
@@ -233,7 +233,11 @@ func H_C09_traverse() {
 			L.RawSet(tb, k, LNumber(100+i))
 		}
 	}
-	mode := VChoice(3) // 0 leave, 1 clear the visited field, 2 overwrite the visited field
+	mode := VChoice(4) // 0 leave, 1 clear every visited field, 2 overwrite every visited field, 3 clear only the j-th visited field
+	only := 0
+	if mode == 3 {
+		only = VChoice(nk)
+	}
 	var seen []LValue
 	key := LValue(LNil)
 	for it := 0; it <= len(keys); it++ {
@@ -259,6 +263,10 @@ func H_C09_traverse() {
 			L.RawSet(tb, nk, LNil)
 		case 2:
 			L.RawSet(tb, nk, LNumber(7))
+		case 3:
+			if it == only {
+				L.RawSet(tb, nk, LNil)
+			}
 		}
 		key = nk
 	}
